@@ -59,3 +59,41 @@ def serialState (qm : BitVec 64) (st : Bool) : Nat → Bool
   | i + 1 => if qm.getLsbD (i + 1) then !(serialState qm st i) else serialState qm st i
 
 end SV.Dsv
+
+/-! ### rows and fields (C21) -/
+namespace SV.Dsv
+
+/-- Quote-aware splitting: the segments of `bs` between bytes equal to `sep` that lie outside
+quotes (toggle, then test), keeping empty segments; always at least one segment. -/
+def segs (sep q : Byte) : Bool → List Byte → List (List Byte)
+  | _, [] => [[]]
+  | inq, b :: bs =>
+    let s := quoteAfter q inq b
+    if !s && b == sep then [] :: segs sep q s bs
+    else
+      match segs sep q s bs with
+      | seg :: rest => (b :: seg) :: rest
+      | [] => [[b]]
+
+/-- Rows: the text split at record separators outside quotes; a final separator (or an empty
+text) does not start an extra row. -/
+def rowSegs (q n : Byte) (text : List Byte) : List (List Byte) :=
+  let ss := segs n q false text
+  if ss.getLast? == some [] then ss.dropLast else ss
+
+/-- Fields of one row: split at delimiters outside quotes (a row starts outside quotes), keeping
+every empty field. -/
+def fieldsOf (d q : Byte) (row : List Byte) : List (List Byte) := segs d q false row
+
+/-- The table a DSV text denotes. -/
+def rowsSpec (d q n : Byte) (text : List Byte) : List (List (List Byte)) :=
+  (rowSegs q n text).map (fieldsOf d q)
+
+/-- Random access: field `c` of row `r`, if both exist. -/
+def cellSpec (d q n : Byte) (text : List Byte) (r c : Nat) : Option (List Byte) :=
+  ((rowsSpec d q n text)[r]?).bind (·[c]?)
+
+/-- Balanced quotes: the text ends outside quotes. -/
+def balanced (q : Byte) (text : List Byte) : Bool := !(finalQuote q false text)
+
+end SV.Dsv
